@@ -1670,3 +1670,99 @@ def rule_entity_entry(ctx: Ctx, clause: str, why_text: str):
     if n < 6:
         ctx.soft_fail(f"entity-entry census saw only {n} call sites")
     return n
+
+
+def rule_once_each(ctx: Ctx, clause: str, fam: List[Func], sources: Set[str], what: str, rule="DU.once-each", min_sites: int = 1,
+                   source_expr: Optional[Callable[[ast.AST], bool]] = None, exactly: bool = False):
+    """Every loop / fold of `fam` over a sequence derived from one of `sources` (parameters, or local lists built by append in an
+    earlier loop; or any expression accepted by `source_expr`) meets each element AT MOST once (EXACTLY once with `exactly`): the
+    iterable is the sequence itself, an order-only view of it (sorted, reversed, list, tuple), or a concatenation of filters whose
+    truth table never keeps one element twice (multi.how_often)."""
+    from . import multi
+    from .inline import baseline
+    from .loader import walk_stmts, walk_exprs
+    n = 0
+    fam = list(fam)
+    base = baseline()
+    helper_args = []
+    if base and source_expr is None:
+        # lines moved into functions the pinned tree does not have: the helpers a family member calls are part of the family, every
+        # parameter of theirs is a sequence to be met once, and what the caller hands them is judged like a loop iterable
+        work = list(fam)
+        while work:
+            g = work.pop()
+            m = ctx.repo.module(g.relpath)
+            for c in ast.walk(g.node):
+                if isinstance(c, ast.Call) and isinstance(c.func, ast.Name):
+                    h = m.funcs.get(c.func.id)
+                    if h is not None and (h.relpath, h.qualname) not in base and h.outer is None:
+                        helper_args.append((g, c))
+                        if h not in fam:
+                            fam.append(h)
+                            work.append(h)
+    new_helpers = {h for h in fam if base and (h.relpath, h.qualname) not in base and h.outer is None}
+    for f in fam:
+        top = f
+        while top.outer is not None:
+            top = top.outer
+        local_lists = {c.func.value.id for c in ast.walk(top.node) if isinstance(c, ast.Call) and isinstance(c.func, ast.Attribute)
+                       and c.func.attr == "append" and isinstance(c.func.value, ast.Name)} if source_expr is None else set()
+        srcs = set(sources) | local_lists | (set(f.params) if f in new_helpers else set())
+        for _ in range(4):  # plain aliases (the inliner binds a helper's parameters this way)
+            for a in ast.walk(top.node):
+                if isinstance(a, ast.Assign) and len(a.targets) == 1 and isinstance(a.targets[0], ast.Name) and isinstance(a.value, ast.Name) and a.value.id in srcs:
+                    srcs.add(a.targets[0].id)
+        sites = []
+        for s in walk_stmts(f.node):
+            if isinstance(s, ast.For):
+                sites.append((s, s.iter))
+        for g, c in helper_args:
+            if g is f:
+                for a in list(c.args) + [k.value for k in c.keywords]:
+                    if not isinstance(a, (ast.Name, ast.Attribute, ast.Constant)):
+                        sites.append((c, a))
+        for e in walk_exprs(f.node):
+            if isinstance(e, ast.Call) and dotted(e.func) in ("reduce", "ft.reduce", "functools.reduce") and len(e.args) >= 2:
+                sites.append((e, e.args[1]))
+        for node, it in sites:
+            if source_expr is not None:
+                # follow local names to see whether the iterable derives from the source expression at all
+                seen, work, hit = set(), [it], False
+                while work and not hit:
+                    x = work.pop()
+                    for y in ast.walk(x):
+                        if source_expr(y):
+                            hit = True
+                            break
+                        if isinstance(y, ast.Name) and y.id not in seen:
+                            seen.add(y.id)
+                            for a in ast.walk(f.node):
+                                if isinstance(a, ast.Assign) and any(y.id in flow.target_names(t) for t in a.targets):
+                                    work.append(a.value)
+                if not hit:
+                    continue
+                src, label = source_expr, "the source"
+            else:
+                used = {x.id for x in ast.walk(it) if isinstance(x, ast.Name)} & srcs
+                if not used:
+                    continue
+                if isinstance(it, ast.Name):
+                    n += 1
+                    ctx.check(True, clause, rule, f"{f.qualname}: iterates `{it.id}` itself", f, node, construct=f"{f.qualname}:once-each:{it.id}")
+                    continue
+                if len(used) != 1:
+                    ctx.soft_fail(f"{f.qualname}: the iterable `{ast.unparse(it)[:80]}` mixes {sorted(used)}")
+                    continue
+                src = label = next(iter(used))
+            kind, info = multi.how_often(ctx.repo, f, it, src, fn_node=f.node)
+            if kind == "unknown":
+                ctx.soft_fail(f"{f.qualname}: cannot decide how often `{ast.unparse(it)[:80]}` meets each element of `{label}` ({info})")
+                continue
+            n += 1
+            rows = info if kind == "table" else []
+            bad = [r for r in rows if r[1] >= 2 or exactly]
+            ctx.check(not bad, clause, rule, f"{f.qualname}: `{ast.unparse(it)[:80]}` meets each element of `{label}` {'exactly' if exactly else 'at most'} once ({what})", f, node,
+                      why_bad=(f"an element with [{bad[0][0]}] is met {bad[0][1]} times: {what}" if bad else ""),
+                      construct=f"{f.qualname}:once-each:{label}")
+    ctx.require(n >= min_sites, f"once-each: only {n} loops over {sorted(sources) or 'the source'} found")
+    return n
